@@ -519,3 +519,105 @@ class Unifier:
         a = self.actual(tname)
         return [st for st in walk_local(self.scope.node) if isinstance(st, ast.Assign) and len(st.targets) == 1
                 and isinstance(st.targets[0], ast.Name) and st.targets[0].id == a]
+
+
+# ----------------------------------------------------------------- mechanics factories: one gradient transformation, one mode table
+
+def hook_agreement(ctx: Ctx, rule: str, factory_qual: str, hook_param="modify_element_gradient", min_sites=2):
+    """Inside a mechanics factory every closure that forwards a gradient transformation to a module-level helper (the helper's
+    parameter `modify_element_gradient`) must forward the SAME variable, and that variable must be the factory's final
+    transformation (the last definition that reaches the end of the factory body): energy, residual, Hessians, internal-variable
+    update and output energies then all see the same kinematics."""
+    fac = ctx.need(factory_qual)
+    cfg = cfg_of(fac)
+    sites = []
+    for sc in [fac] + [c for c in ctx.repo.functions() if c.qualname.startswith(fac.qualname + ".")]:
+        for c in calls_in(sc):
+            for v in ctx.repo.resolve(c.func, sc):
+                if isinstance(v, FuncVal) and hook_param in v.scope.params():
+                    a = actual(c, v.scope.params(), hook_param)
+                    if a is not None:
+                        sites.append((sc, c, v.scope, a))
+                    break
+    if len(sites) < min_sites:
+        raise Incomplete(f"{factory_qual}: {len(sites)} call sites forward a gradient transformation ({min_sites} expected)")
+    names = {src(a) for (_, _, _, a) in sites}
+    # the transformation used by the majority role "energy" is irrelevant: all must coincide
+    ref = src(sites[0][3])
+    for (sc, c, callee, a) in sites:
+        ok = src(a) == ref and isinstance(a, ast.Name)
+        ctx.decide(rule, ok if len(names) == 1 else (src(a) == _majority([src(x[3]) for x in sites])), sc, c,
+                   construct=f"{fac.name}:{sc.name}->{callee.name}:gradient-transformation",
+                   detail=f"forwards `{src(a)}`",
+                   bad_detail=f"{sc.name} forwards `{src(a)}` to {callee.name} while the other closures of {fac.name} forward "
+                              f"`{_majority([src(x[3]) for x in sites])}`: energy, derivatives and state update would use different kinematics")
+    # it is the last definition of that name in the factory body (post-projection)
+    maj = _majority([src(x[3]) for x in sites])
+    defs = [n for n in cfg.nodes if n.kind == "stmt" and any(cc == maj and not w for (cc, w) in cfg.defs_of(n))]
+    closures_start = min((c.node.lineno for c in fac.children if c.kind == "function"), default=None)
+    late = [d for d in defs if closures_start is not None and getattr(d.ast, "lineno", 0) > closures_start]
+    ctx.decide(rule, bool(defs) and not late, fac, defs[-1].ast if defs else None, construct=f"{fac.name}:transformation-final-before-closures",
+               detail=f"`{maj}` is defined {len(defs)}x, all before the closures that capture it",
+               bad_detail=f"`{maj}` is (re)defined after closures that capture it were created")
+    return len(sites)
+
+
+def _majority(xs):
+    best = None
+    for x in sorted(set(xs)):
+        if best is None or xs.count(x) > xs.count(best):
+            best = x
+    return best
+
+
+def mode_dispatch(ctx: Ctx, rule: str, sites, module="optimism.Mechanics", marker="axisymmetric_gradient"):
+    """Every dispatch on the 2-D idealisation (`mode2D == '...'`) must select, for 'axisymmetric', a transformation whose call cone
+    contains the hoop-strain kernel (`axisymmetric_gradient`) and, for the other option, one that does not; sibling dispatch
+    sites must agree.  sites: qualified names of the functions that contain a dispatch."""
+    tables = {}
+    for q in sites:
+        sc = ctx.need(q)
+        cfg = cfg_of(sc)
+        table = {}
+        mode_par = [p for p in sc.params() if p.lower().startswith("mode")]
+        if not mode_par:
+            ctx.undecided(rule, sc, None, construct=f"{sc.name}:mode-parameter", detail="no mode parameter")
+            continue
+        for n in cfg.nodes:
+            if n.kind != "stmt" or not isinstance(n.ast, (ast.Assign, ast.Return)):
+                continue
+            val = n.ast.value
+            if not isinstance(val, ast.Name):
+                continue
+            modes = []
+            for (c, lab) in cfg.edge_facts(n):
+                if c.kind == "cond" and lab and isinstance(c.ast, ast.Compare) and isinstance(c.ast.ops[0], ast.Eq) and isinstance(c.ast.left, ast.Name) \
+                        and c.ast.left.id == mode_par[0] and isinstance(c.ast.comparators[0], ast.Constant):
+                    modes.append(c.ast.comparators[0].value)
+            if len(modes) != 1:
+                continue
+            tgt = [v.scope for v in ctx.repo.resolve(val, sc) if isinstance(v, FuncVal)]
+            if tgt:
+                table[modes[0]] = tgt[0]
+        if not table:
+            ctx.undecided(rule, sc, None, construct=f"{sc.name}:dispatch-table", detail="no `mode == literal` branch selecting a function found")
+            continue
+        tables[q] = table
+        for mode, fn in sorted(table.items()):
+            cone = ctx.cg.cone([fn])
+            has = any(s.name == marker for s in cone)
+            want = (mode == "axisymmetric")
+            ctx.decide(rule, has == want, sc, None, construct=f"{sc.name}:{mode}",
+                       detail=f"'{mode}' selects {fn.name} ({'with' if has else 'without'} hoop strain)",
+                       bad_detail=f"{sc.name}: mode '{mode}' selects {fn.name}, which {'computes' if has else 'does not compute'} the hoop strain u_r/r; "
+                                  f"{'only the axisymmetric idealisation has one' if has else 'the axisymmetric idealisation needs it (mass and volumes carry the 2 pi r weight)'}")
+    qs = sorted(tables)
+    for a, b in zip(qs, qs[1:]):
+        ta, tb = tables[a], tables[b]
+        shared = set(ta) & set(tb)     # a site may reject a mode (raise): agreement is required where both select something
+        ok = bool(shared) and all(ta[k].qualname == tb[k].qualname for k in shared)
+        ctx.decide(rule, ok, ctx.need(b), None, construct=f"siblings:{a.split(':')[-1]}~{b.split(':')[-1]}",
+                   detail="same mode -> transformation table", bad_detail=f"dispatch tables differ: {a.split(':')[-1]} has { {k: v.name for k, v in ta.items()} }, "
+                                                                          f"{b.split(':')[-1]} has { {k: v.name for k, v in tb.items()} }")
+    if len(tables) < len(list(sites)):
+        raise Incomplete(f"mode dispatch tables found for {len(tables)} of {len(list(sites))} sites")
